@@ -57,6 +57,15 @@ MUTANTS = [
     ("clean-allws-ascii", "eyecite/clean.py", 'return re.sub(r"\\s+", " ", text)', 'return re.sub(r"[ \\t\\n\\r]+", " ", text)', ["C20"]),
     ("clean-html-keep-script", "eyecite/clean.py", "            parent::script)]", "            parent::noscript)]", ["C20"]),
     ("clean-steps-skip-callable", "eyecite/clean.py", "        elif callable(step):\n            step_func = step", "        elif callable(step):\n            continue", ["C20"]),
+    ("ac-extractors-set", "eyecite/tokenizers.py", "        return sorted(\n            unique_extractors, key=lambda e: self._extractor_order[id(e)]\n        )",
+     "        return unique_extractors", ["C15", "C13"]),
+    ("merge-editions-set", "eyecite/models.py", "                self.exact_editions = tuple(dict.fromkeys(self.exact_editions))",
+     "                self.exact_editions = tuple(set(self.exact_editions))", ["C15"]),
+    ("ac-shared-selection", "eyecite/tokenizers.py",
+     [("        unique_extractors = set(self.unfiltered_extractors)\n", "        self._selection = set(self.unfiltered_extractors)\n"),
+      ("                unique_extractors.update(extractors)", "                self._selection.update(extractors)"),
+      ("            unique_extractors, key=lambda e: self._extractor_order[id(e)]", "            self._selection, key=lambda e: self._extractor_order[id(e)]")],
+     None, ["C15"]),
 ]
 
 
@@ -71,11 +80,14 @@ def run(names):
             shutil.copytree("/repo", dst, ignore=shutil.ignore_patterns(".git", "__pycache__", ".test_cache", "*.pyc"))
             fp = os.path.join(dst, path)
             src = open(fp, encoding="utf8").read()
-            if old not in src:
+            pairs = old if isinstance(old, list) else [(old, new)]
+            if any(o not in src for o, _ in pairs):
                 print(f"[{name}] SKIP: anchor text not found in {path}")
                 failures.append((name, "anchor"))
                 continue
-            open(fp, "w", encoding="utf8").write(src.replace(old, new, 1))
+            for o, n_ in pairs:
+                src = src.replace(o, n_)
+            open(fp, "w", encoding="utf8").write(src)
             for p in props:
                 if not os.path.exists(os.path.join(HERE, "vf", "props", p.lower() + ".py")):
                     print(f"[{name}] {p}: check not built yet")
